@@ -23,9 +23,9 @@ var commonAssumptions = []string{
 func init() {
 	prop(&PropDef{
 		ID:    "C01",
-		Rules: []string{"TXN-1", "TXN-2", "SHAPE-1", "TAB-2", "UPS-1", "WIN-3", "OWN-5"},
+		Rules: []string{"TXN-1", "TXN-2", "SHAPE-1", "TAB-2", "UPS-1", "EXT-1", "WIN-3", "OWN-5"},
 		Explanation: "Structural necessary conditions of 'CRUD equals a sequential model', decided for every path/site of the resolved program: writes are never issued on an unlocked snapshot transaction (they would be silently discarded), every data access goes through a transaction that honours the session, the driver's counts and ids derive from the right engine result lists, every documented operator is wired, the upsert fallback fires exactly on 'nothing matched', and the find/update/delete window is sort -> filter(limit+skip) -> skip. Model equivalence itself (what each operator computes on each input) is a runtime relation and is NOT decided.",
-		Decided:     []string{"lock flag vs. methods called at all 19 useTransaction sites", "no back door to Engine.catalog / NewTransaction", "provenance of MatchedCount/ModifiedCount/DeletedCount/Inserted*/Upserted*", "operator registries complete", "upsert condition is len(Matched)==0 && upsert", "window composition in Find/Replace/Update/Delete"},
+		Decided:     []string{"$in/$or upsert extraction only for a single alternative (len interval at each Put/Process site)", "lock flag vs. methods called at all 19 useTransaction sites", "no back door to Engine.catalog / NewTransaction", "provenance of MatchedCount/ModifiedCount/DeletedCount/Inserted*/Upserted*", "operator registries complete", "upsert condition is len(Matched)==0 && upsert", "window composition in Find/Replace/Update/Delete"},
 		NotDecided:  []string{"that each operator computes MongoDB's result on each input", "contents of collections after arbitrary histories", "error-or-success agreement with a reference model"},
 		Assumptions: commonAssumptions,
 	})
@@ -39,57 +39,57 @@ func init() {
 	})
 	prop(&PropDef{
 		ID:    "C03",
-		Rules: []string{"OWN-1", "OWN-2", "OWN-3", "OWN-4", "PUB-1", "TXN-2", "ATOM-1"},
+		Rules: []string{"OWN-1", "OWN-2", "OWN-3", "OWN-4", "OWN-8", "PUB-1", "TXN-2", "TXN-3", "ATOM-1"},
 		Explanation: "Copy-on-write and publication discipline behind 'all-or-nothing transactions, immutable snapshots': nothing reachable from a published catalog is written (catalog map, collection, set list/index, btree, documents: every in-place document mutation works on a document that is fresh in the sharing analysis), clones are deep enough, only Commit publishes - after the identity check and after the store accepted the very catalog that is published - and reads inside a session use the session's transaction.",
-		Decided:     []string{"catalog/collection COW at every mutation site", "clone depth of Set/Index/Collection/Catalog", "stored documents are never mutated in place (OWN-4)", "single publish point with identity check, store-then-publish", "session transaction consulted first"},
+		Decided:     []string{"bsonkit copy functions verified deep (no parameter-owned container reaches a result)", "session detaches its transaction on every way out of Commit/Abort", "catalog/collection COW at every mutation site", "clone depth of Set/Index/Collection/Catalog", "stored documents are never mutated in place (OWN-4)", "single publish point with identity check, store-then-publish", "session transaction consulted first"},
 		NotDecided:  []string{"byte-identity of what a particular snapshot returns over a particular history", "primitive.Binary.Data sharing (documented exception of Clone)"},
 		Assumptions: commonAssumptions,
 	})
 	prop(&PropDef{
 		ID:    "C04",
-		Rules: []string{"LOCK-0", "LOCK-3", "LOCK-4", "LOCK-5", "TXN-1", "PUB-1"},
+		Rules: []string{"LOCK-0", "LOCK-3", "LOCK-4", "LOCK-5", "TXN-1", "PUB-1", "OWN-3", "LOCK-10"},
 		Explanation: "Lock and token discipline that strict serializability rests on: every mutable field of Engine/Session/Stream/Transaction/Cursor and the timestamp globals is accessed only under its mutex; the writer token is a typestate (acquired once, handed to e.txn, taken back and released exactly once); the writer's base snapshot is read after the token is won and in the critical section that registers e.txn (no lost update); writes need the lock flag; the catalog pointer is swapped under the mutex after the store accepted it.",
-		Decided:     []string{"consistent locking of ~150 field accesses", "token typestate on all paths of Begin/Commit/Abort", "snapshot-after-token in Begin", "write methods only on locked transactions", "publish protocol"},
+		Decided:     []string{"clone depth of Set/Index/Collection/Catalog", "Semaphore.Acquire returns true exactly on token-holding paths", "consistent locking of ~150 field accesses", "token typestate on all paths of Begin/Commit/Abort", "snapshot-after-token in Begin", "write methods only on locked transactions", "publish protocol"},
 		NotDecided:  []string{"linearizability of observed histories", "real-time order", "agreement of results with the oplog order"},
 		Assumptions: append([]string{"txn arguments of Commit/Abort are non-nil", "locks are identified by (type, field): instance-insensitive"}, commonAssumptions...),
 	})
 	prop(&PropDef{
 		ID:    "C05",
-		Rules: []string{"DUR-1", "DUR-2", "DUR-3", "DUR-4", "PUB-1"},
+		Rules: []string{"DUR-1", "DUR-2", "DUR-3", "DUR-4", "PUB-1", "TXN-3"},
 		Explanation: "The ordered durability protocol, checked as dominance chains on the SSA of AtomicWriteFile (remove stale temp, O_CREATE|O_EXCL open, copy, fsync, close, rename(temp,path), open dir, fsync dir; each step on the success edge of the previous one; success reported only after the directory fsync), who may touch the file system, the FileStore pipeline, store-then-publish in Commit with error/txn/token handling on the failure edge, and no dropped error on the persist/load path. What a kill at a given syscall leaves on disk and what a real file system does with unsynced data are fault-model questions and NOT decided.",
-		Decided:     []string{"8-step write protocol ordering and error handling", "only AtomicWriteFile mutates the file system", "FileStore.Store writes bson.Marshal(BuildFile(catalog)) to s.path", "Commit publishes only after Store returned nil; failure path returns the error with txn cleared and token released", "no dropped errors in store.go/file.go/atomic.go"},
+		Decided:     []string{"the session drops its transaction also when the commit fails", "8-step write protocol ordering and error handling", "only AtomicWriteFile mutates the file system", "FileStore.Store writes bson.Marshal(BuildFile(catalog)) to s.path", "Commit publishes only after Store returned nil; failure path returns the error with txn cleared and token released", "no dropped errors in store.go/file.go/atomic.go"},
 		NotDecided:  []string{"kill points and disk behaviour", "torn-write behaviour of the OS"},
 		Assumptions: commonAssumptions,
 	})
 	prop(&PropDef{
 		ID:    "C06",
-		Rules: []string{"TAB-3", "TAB-4", "TAB-1", "IDX-5", "PUB-1"},
+		Rules: []string{"TAB-3", "TAB-4", "TAB-8", "TAB-9", "TAB-1", "IDX-5", "PUB-1"},
 		Explanation: "Tables that must agree for persist-and-reload to be the identity: the on-disk FileIndex/FileNamespace mirror IndexConfig/Collection field by field with plain copies in both directions, the codec tags are usable, every stored index is rebuilt from the loaded documents under its saved name and a duplicate fails the load, the BSON type universe is closed under Inspect/cloneValue, and the catalog that is persisted is the one that is published (retention runs before both). The fidelity of the bson codec for each value is third-party and per-value: NOT decided.",
-		Decided:     []string{"field coverage and plain-copy round trip of index definitions", "codec tags", "index rebuild on load", "type universe closure", "file and memory see the same catalog at commit"},
+		Decided:     []string{"namespace key join/split agree (first separator, two parts), Validate rejects the separator in database names, every Transaction entry point validates", "per-namespace maps are allocated per namespace in BuildFile/BuildCatalog", "field coverage and plain-copy round trip of index definitions", "codec tags", "index rebuild on load", "type universe closure", "file and memory see the same catalog at commit"},
 		NotDecided:  []string{"bson codec fidelity per value (NaN, -0, decimal exponents)", "natural order after reload beyond 'documents are written in set order'"},
 		Assumptions: commonAssumptions,
 	})
 	prop(&PropDef{
 		ID:    "C07",
-		Rules: []string{"IDX-1", "IDX-2", "IDX-3", "IDX-4", "IDX-5", "SEM-2", "SEM-3", "ATOM-3"},
+		Rules: []string{"IDX-1", "IDX-2", "IDX-3", "IDX-4", "IDX-5", "IDX-6", "SEM-2", "SEM-3", "ATOM-3"},
 		Explanation: "Uniqueness enforcement as pairing rules: every write path of mongokit.Collection adds to / removes from every index for every document before it touches Documents and aborts on a false result; bsonkit.Index.Add probes every key tuple of a unique index before inserting and Add/Remove use the same tuple set; the _id_ index exists for every user namespace and cannot be dropped; the partial-filter gates of Add/Remove/Has agree; index builds (creation and file load) reject duplicates; the comparators the btree relies on are sign functions with the right orientation.",
-		Decided:     []string{"index maintenance on all 5 write paths (loop completeness per index and per document)", "probe-before-insert", "_id_ index present and undroppable", "gate agreement", "build rejects duplicates", "leaf comparator tables and numeric orientation"},
+		Decided:     []string{"multi-document exchange removes all old versions before adding new ones", "index maintenance on all 5 write paths (loop completeness per index and per document)", "probe-before-insert", "_id_ index present and undroppable", "gate agreement", "build rejects duplicates", "leaf comparator tables and numeric orientation"},
 		NotDecided:  []string{"that Compare-equality of key tuples is the right equality for every value pair", "'never rejected wrongly' on concrete histories"},
 		Assumptions: commonAssumptions,
 	})
 	prop(&PropDef{
 		ID:    "C08",
-		Rules: []string{"LOG-1", "LOG-2", "LOG-3", "LOG-4", "MOD-1", "TAB-6", "ATOM-1", "ATOM-2", "OWN-2", "LOCK-3", "PUB-1"},
+		Rules: []string{"LOG-1", "LOG-2", "LOG-3", "LOG-4", "RET-1", "MOD-1", "TAB-6", "ATOM-1", "ATOM-2", "OWN-2", "LOCK-3", "PUB-1"},
 		Explanation: "The change log as a pairing discipline: each successful collection mutation in the Transaction helpers is followed on every success path by an append of the matching event kind for the documents of the matching result list, with the error propagated, into the oplog clone that is published together with the data; only those helpers may mutate documents; failed/no-op writes store nothing (ATOM); update events pair a document with its own change record; retention removes List[0] of a cloned oplog only; the timestamp generator state is mutex-protected; event kinds written and read agree.",
-		Decided:     []string{"append after every mutation kind, placement and error propagation", "who may mutate", "prefix-only retention on a clone, run before store/publish", "Modified/Changes lock-step", "op strings"},
+		Decided:     []string{"drop predicate of Clean over all loop-body paths (size protection exact, age protection, forced-drop clause)", "append after every mutation kind, placement and error propagation", "who may mutate", "prefix-only retention on a clone, run before store/publish", "Modified/Changes lock-step", "op strings"},
 		NotDecided:  []string{"replay equivalence on concrete histories", "content of updateDescription", "retention arithmetic (min/max size and age)", "numeric monotonicity of ids"},
 		Assumptions: commonAssumptions,
 	})
 	prop(&PropDef{
 		ID:    "C09",
-		Rules: []string{"SIG-1", "SIG-2", "LOCK-1", "LOCK-2", "LOCK-3", "TAB-6", "PUB-1", "SEM-6"},
+		Rules: []string{"SIG-1", "SIG-2", "LOCK-1", "LOCK-2", "LOCK-3", "TAB-6", "PUB-1", "SEM-6", "WATCH-1"},
 		Explanation: "The wake-up and close protocol of change streams: buffered signal channel, all sends non-blocking and after publication, registration in the critical section that reads the start position, blocking wait on signal and ctx with the stream lock released, close(signal) only under Stream.mutex guarded by !closed after tomb.Kill outside Engine.mutex, every Stream path that sets closed also unregisters; no lock-order cycle and no blocking under locks among Engine/Stream; invalidate triggers read the event kinds that are written.",
-		Decided:     []string{"no lost wake-up by construction (buffer + send-after-publish + register-with-position)", "no send on / double close of a closed channel", "no deadlock between stream and engine locks"},
+		Decided:     []string{"start-at position (nil for i==0, List[i-1] otherwise) and found condition Compare(startAt, clusterTime) <= 0", "no lost wake-up by construction (buffer + send-after-publish + register-with-position)", "no send on / double close of a closed channel", "no deadlock between stream and engine locks"},
 		NotDecided:  []string{"exactly-once, in-order delivery and resume positions over a history", "lost-position detection arithmetic", "timing"},
 		Assumptions: commonAssumptions,
 	})
@@ -143,17 +143,17 @@ func init() {
 	})
 	prop(&PropDef{
 		ID:    "C16",
-		Rules: []string{"LOCK-0", "LOCK-1", "LOCK-2", "LOCK-4", "LOCK-6", "LOCK-7", "LOCK-8", "LOCK-9", "SIG-2", "DUR-3"},
+		Rules: []string{"LOCK-0", "LOCK-1", "LOCK-2", "LOCK-4", "LOCK-6", "LOCK-7", "LOCK-8", "LOCK-9", "LOCK-10", "SIG-2", "DUR-3"},
 		Explanation: "Static lock/token discipline behind 'the engine never wedges', decided on every path of the resolved program: balanced locking, acyclic lock order over the VTA call graph, no blocking under engine/session/stream/transaction locks, token typestate (released exactly once on the paths that own it), release of every begun write transaction at each call site (deferred when callbacks run), liveness re-checks, the session state machine, shutdown unblocking token waiters and the expiry goroutine, and the close/send discipline of stream channels. It is a set of structural necessary conditions, not the behavioural property.",
-		Decided:     []string{"no lock-order cycle among the repo's mutexes", "token released exactly once per owning path in Begin/Commit/Abort (also when the store fails)", "every Begin(lock) site aborts/commits/hands over on all paths", "no blocking call while a critical lock may be held", "waiters observe the tomb"},
+		Decided:     []string{"Semaphore.Acquire reports exactly the token state", "no lock-order cycle among the repo's mutexes", "token released exactly once per owning path in Begin/Commit/Abort (also when the store fails)", "every Begin(lock) site aborts/commits/hands over on all paths", "no blocking call while a critical lock may be held", "waiters observe the tomb"},
 		NotDecided:  []string{"promptness (time bounds)", "goroutine counts after shutdown", "panics inside third-party code", "nil txn arguments"},
 		Assumptions: append([]string{"txn arguments of Commit/Abort are non-nil", "locks are identified by (type, field): instance-insensitive"}, commonAssumptions...),
 	})
 	prop(&PropDef{
 		ID:    "C17",
-		Rules: []string{"OWN-5", "OWN-6", "OWN-7", "OWN-4"},
+		Rules: []string{"OWN-5", "OWN-6", "OWN-7", "OWN-4", "OWN-8", "OWN-9"},
 		Explanation: "No aliasing across the API, decided by a flow-insensitive sharing analysis over the SSA of mongokit and lungo (bsonkit primitives by summary): every document/filter/update argument of the driver methods only flows into Transform/TransformList (copy), every value a driver method hands back is either of a type that cannot carry a container, a copy (ConvertValue/Decode/Marshal), or wrapped in Cursor/SingleResult/Stream whose accessors copy; at the engine level every document that reaches the stored set is a clone and no caller container is written to.",
-		Decided:     []string{"arguments enter by copy at every driver method", "results leave by copy", "engine-level inserts/replacements/updates are cloned before they are stored", "calls never write into their arguments"},
+		Decided:     []string{"bsonkit copy functions verified deep", "CreateIndex copies Key/Partial before retaining them", "arguments enter by copy at every driver method", "results leave by copy", "engine-level inserts/replacements/updates are cloned before they are stored", "calls never write into their arguments"},
 		NotDecided:  []string{"sharing of primitive.Binary.Data (documented exception of Clone)", "GridFS streams (metadata kept while an upload is in flight)"},
 		Assumptions: commonAssumptions,
 	})
